@@ -27,6 +27,9 @@ structure Ent where
   comps : List Kid := []
   binds : List Kid := []
   procs : List Kid := []
+  /-- `module procedure x` references of a generic interface (`FortranModuleProcedureReference`): they are not
+      procedures, their stored permission is never read for display or export -/
+  refs : List Kid := []
   /-- interface-procedure wrapper (`FortranModuleProcedureInterface`): the wrapped
       procedure reads this entity's permission (`FortranProcedure.permission`) -/
   wrapper : Bool := false
@@ -87,7 +90,7 @@ inductive Stmt
   | access (a : Attr) (names : List Str)
   | var (names : List Str) (attrs : List Attr)
   | typeDef (name : Str) (attrs : List Attr) (body : List TStmt)
-  | iface (k : IKind) (name : Str) (procs : List Str)
+  | iface (k : IKind) (name : Str) (procs : List Str) (refs : List Str)
   | proc (isFunc : Bool) (name : Str)
   | contains
   | other
@@ -108,12 +111,12 @@ def mkEnts (self child : Perm) (incontains : Bool) : Stmt → List Ent
     let p := declPerm typeAttrWords (pick self child srcType) as
     let t := runType p body
     [{ cat := .type, name := n, perm := p, comps := t.comps, binds := t.binds }]
-  | .iface .generic n ps =>
+  | .iface .generic n ps rs =>
     let p := pick self child srcInterface
-    [{ cat := .iface, name := n, perm := p, procs := ps.map (fun q => ⟨q, p⟩) }]
-  | .iface .abstract _ ps =>
+    [{ cat := .iface, name := n, perm := p, procs := ps.map (fun q => ⟨q, p⟩), refs := rs.map (fun q => ⟨q, p⟩) }]
+  | .iface .abstract _ ps _ =>
     ps.map (fun q => { cat := .absIface, name := q, perm := pick self child srcInterface, wrapper := true })
-  | .iface .plain _ ps =>
+  | .iface .plain _ ps _ =>
     ps.map (fun q => { cat := .iface, name := q, perm := pick self child srcInterface, wrapper := true })
   | .proc f n =>
     if incontains then
@@ -162,6 +165,26 @@ def passes : List Cat → List Ent → List (Str × Attr) → List Ent × List (
   | [], es, a => (es, a)
   | c :: cs, es, a => let r := pass c es a; passes cs r.1 r.2
 
+/-- what `process_attribs` does to one entity when it sees the whole `attr_dict` `a` -/
+def upd (a : List (Str × Attr)) (e : Ent) : Ent :=
+  { e with perm := applyAttrs (wordsFor e.cat) e.name e.perm a }
+
+/-- Where `process_attribs` forgets an `attr_dict` entry.  `perEntity`: right after the first entity of that
+    name (the code as it is: a derived type takes the statement, the constructor interface of the same name
+    never sees it).  `afterLoop`: the candidate repair - every entity of the first loop sees the whole
+    `attr_dict`, the names are forgotten when the loop is over (the variables' loop is unchanged).
+    Which one the code under test has is decided by the harness by probing it. -/
+inductive DelOrder | perEntity | afterLoop
+  deriving DecidableEq, Repr
+
+def passesAfter (es : List Ent) (a : List (Str × Attr)) : List Ent × List (Str × Attr) :=
+  pass .var (es.map (fun e => if e.cat ∈ itemPasses then upd a e else e))
+    (a.filter (fun x => !(es.any (fun e => decide (e.cat ∈ itemPasses) && decide (e.name = x.1)))))
+
+def passesV : DelOrder → List Ent → List (Str × Attr) → List Ent × List (Str × Attr)
+  | .perEntity, es, a => passes attribPasses es a
+  | .afterLoop, es, a => passesAfter es a
+
 /-- `public_list` -/
 def publicList (es : List Ent) (rest : List (Str × Attr)) : List Str :=
   publicListCats.flatMap (fun c => (es.filter (fun e => e.cat = c ∧ e.perm = publicWord)).map (·.name))
@@ -176,15 +199,79 @@ def ctorPass (es : List Ent) : List Ent :=
       | none => e
     else e)
 
+/-- `FortranProcedure.permission` (the getter): a procedure declared by an interface body reads its parent's
+    permission when the generated truth table says so (`readWrapper`: parent is a non-generic interface -
+    carried by `Ent.wrapper`, checked on the implementation; `readGeneric`: parent is a generic interface),
+    else its own stored one. -/
+def readKids (e : Ent) : Ent :=
+  if readGeneric then { e with procs := e.procs.map (fun k => ⟨k.name, e.perm⟩) } else e
+
+/-- the four tables of a module through which its entities reach other scopes by use association
+    (`pub_procs`, `pub_vars`, `pub_types`, `pub_absints`, built in `FortranModule._cleanup`, i.e. after
+    `process_attribs` and *before* `correlate`) -/
+inductive Tab | procs | vars | types | absints
+  deriving DecidableEq, Repr
+
+def tabOf : Cat → Tab
+  | .func => .procs | .sub => .procs | .iface => .procs
+  | .type => .types | .absIface => .absints | .var => .vars
+
+/-- `all_procs` of `FortranCodeUnit._cleanup`: procedures, then per (non-abstract) interface the interface and,
+    for a generic one, its interface bodies; a dict, so a later entry replaces an earlier one of the same name -/
+def allProcs (es : List Ent) : List (Str × Perm) :=
+  (es.filter (fun e => e.cat = .func)).map (fun e => (e.name, e.perm))
+  ++ (es.filter (fun e => e.cat = .sub)).map (fun e => (e.name, e.perm))
+  ++ (es.filter (fun e => e.cat = .iface)).flatMap (fun e => (e.name, e.perm) :: e.procs.map (fun k => (k.name, k.perm)))
+
+/-- value of a key of a dict written as its list of insertions -/
+def lookupLast (n : Str) : List (Str × Perm) → Option Perm
+  | [] => none
+  | (m, p) :: r => match lookupLast n r with
+    | some q => some q
+    | none => if m = n then some p else none
+
+def exportsOf (es : List Ent) : List (Tab × Str) :=
+  (((allProcs es).map (·.1)).eraseDups.filter (fun n => match lookupLast n (allProcs es) with
+      | some p => decide (p ∈ exportWords) | none => false)).map (fun n => (Tab.procs, n))
+  ++ ((es.filter (fun e => tabOf e.cat ≠ .procs ∧ e.perm ∈ exportWords)).map (fun e => (tabOf e.cat, e.name)))
+
+/-- The two places where the code under test may differ from the code as it is (each a candidate repair of a
+    known defect); decided by the harness by probing the real code, see `DelOrder`.  `ctorEarly`: the
+    constructor interface takes its type's permission already in `_cleanup`, before the export tables are built
+    (as it is: only in `FortranType.correlate`, after they were built). -/
+structure Variant where
+  del : DelOrder
+  ctorEarly : Bool
+  /-- candidate repair of "access statement naming a specific procedure is ignored": `process_attribs` starts with a
+      loop over the interface bodies of the generic interfaces that applies the access words of `attr_dict` to them
+      (nothing is deleted there) -/
+  specLoop : Bool
+  deriving DecidableEq, Repr
+
+/-- the code as it is -/
+def asIs : Variant := ⟨.perEntity, false, false⟩
+
+/-- the loop over the interface bodies of generic interfaces (only generic interfaces have `procs`) -/
+def specUpd (on : Bool) (a : List (Str × Attr)) (e : Ent) : Ent :=
+  if on then { e with procs := e.procs.map (fun k => ⟨k.name, applyAttrs applyWords k.name k.perm a⟩) } else e
+
 structure Out where
+  /-- entities with the permissions they have after `correlate` -/
   ents : List Ent
   publicList : List Str
+  /-- entities as `process_attribs` leaves them -/
+  attr : List Ent
+  /-- entities as `_cleanup` sees them when it builds the export tables -/
+  pre : List Ent
+  exports : List (Tab × Str)
   deriving Repr
 
-def finish (s : St) : Out :=
-  let r := passes attribPasses s.ents s.attrs
-  ⟨ctorPass r.1, publicList r.1 r.2⟩
+def finish (v : Variant) (s : St) : Out :=
+  let r := passesV v.del (s.ents.map (specUpd v.specLoop s.attrs)) s.attrs
+  let pre := (if v.ctorEarly then ctorPass r.1 else r.1).map readKids
+  ⟨(ctorPass r.1).map readKids, publicList r.1 r.2, r.1, pre, exportsOf pre⟩
 
-def runUnit (submodule : Bool) (stmts : List Stmt) : Out := finish (stmts.foldl step (init submodule))
+def runUnit (v : Variant) (submodule : Bool) (stmts : List Stmt) : Out :=
+  finish v (stmts.foldl step (init submodule))
 
 end Ford.Access
